@@ -11,4 +11,8 @@ MUTANTS=[
  ('hasher-env-is-elem-type', 'env := b.abiType(t.Key())', 'env := b.abiType(t.Elem())', 0, AT),
  ('next-value-loaded-from-key-slot', 'llvm.CreateLoad(b.impl, vtyp.ll, v))', 'llvm.CreateLoad(b.impl, vtyp.ll, k))'),
  ('clear-map-is-noop', 'b.Call(b.Pkg.rtFunc("MapClear"), t, m)\n\t\t\t\treturn', 'return', 0, EX),
+ # reverts of F14, F15, F16 (layer B)
+ ('revert-func-elem-whole-slot', 'memmove(dst.e, e, uintptr(t.ValueSize))', 'typedmemmove(t.Elem, dst.e, e)', 0, 'runtime/internal/runtime/map.go'),
+ ('revert-fat-zero-value', 'if !ok && t.Elem.Size_ > maxZero {', 'if false {', 0, 'runtime/internal/runtime/z_map.go'),
+ ('revert-struct-tags-in-type-identity', 'fmt.Fprintln(h, name, ft, strconv.Quote(t.Tag(i)))', 'fmt.Fprintln(h, name, ft)', 0, 'ssa/abi/abi.go'),
 ]
